@@ -171,7 +171,7 @@ class WindowModel(SM.Monitor):
     def pre(self, sim, ev):
         ev.pre['c08'] = None
         d = ev.dgram
-        if d is None or len(d.data) < 28 or ev.kind not in ('deliver', 'dup', 'old'):
+        if d is None or len(d.data) < 28 or ev.kind not in ('deliver', 'dup', 'old', 'rewrite'):
             return
         h = W.dec_header(d.data)
         my_spi = h['spi_r'] if h['flags']['initiator'] else h['spi_i']
@@ -245,8 +245,13 @@ class WindowModel(SM.Monitor):
         for o in ev.out:
             if len(o.data) >= 28 and o.data[19] & 0x20:
                 d = ev.dgram
-                ok = (d is not None and len(d.data) >= 28 and not d.data[19] & 0x20 and d.data[18] == o.data[18]
-                      and d.data[20:24] == o.data[20:24])
+                ok = d is not None and len(d.data) >= 28 and not d.data[19] & 0x20 and d.data[20:24] == o.data[20:24]
+                if ok:
+                    # the exchange type is that of the request that was executed under this ID (a later request with the same
+                    # ID is recognised as its retransmission by the ID alone and gets the stored response)
+                    oh = W.dec_header(o.data)
+                    executed = self.req_seen.get((ev.ep.name, oh['spi_i'] if oh['flags']['initiator'] else oh['spi_r']), {})
+                    ok = o.data[18] == executed.get(oh['msgid'], d.data[18])
                 if not ok:
                     sim.fail(f'response-not-to-delivered-request:{ev.kind}',
                              f'a {SM.W_EXCH.get(o.data[18])} response (ID {int.from_bytes(o.data[20:24], "big")}) was transmitted during '
@@ -282,7 +287,45 @@ def run_case(case):
         s.apply(['acquire', case.get('first', 'a'), 0, 1])
     s.run(case['ops'])
     s.drain(settle=False)
+    if not s.fails:
+        late_init_copies(s)
     return s.fails, {'hits': wm.window_hits}, s
+
+
+def late_init_copies(s):
+    """the event loop never hands an IKE_SA_INIT request to an existing IKE_SA (it creates a new one), so the window rule for
+    request 0 is exercised on the IKE_SA objects directly: a late copy of the IKE_SA_INIT request that created a responder IKE_SA
+    is the 'previous' request only while nothing else has been answered (stored response, byte-identical); afterwards ID 0 is
+    outside the window: no reply, no effect"""
+    for ep in s.eps.values():
+        for sa in list(ep.sas):
+            if sa.is_initiator or sa.peer_crypto is None:
+                continue
+            req = next((d for d in s.w.sent_log if len(d.data) >= 28 and d.data[18] == 34 and not d.data[19] & 0x20
+                        and d.data[0:8] == bytes(sa.peer_spi) and d.data[8:16] == bytes(8)), None)
+            if req is None:
+                continue
+            res = [d.data for d in s.w.sent_log if d.sender == ep.name and d.data[18] == 34 and d.data[19] & 0x20
+                   and d.data[0:8] == bytes(sa.peer_spi) and d.data[8:16] == bytes(sa.my_spi)]
+            before = WD.sa_snapshot(sa)
+            try:
+                out = sa.process_message(req.data)
+            except Exception as ex:
+                s.fail(f'late-init-copy-raises:{type(ex).__name__}', f'a late copy of the IKE_SA_INIT request given to the responder '
+                                                                    f'IKE_SA (state {sa.state.name}) raised {type(ex).__name__}: {ex}')
+                continue
+            if sa.state == State.INIT_RES_SENT:
+                if out is None or bytes(out) not in res:
+                    s.fail('replay-not-from-cache:IKE_SA_INIT', 'a copy of the IKE_SA_INIT request was not answered with the stored '
+                                                                'response by the half-open responder IKE_SA')
+            elif out is not None:
+                s.fail(f'out-of-window-answered:IKE_SA_INIT:{sa.state.name}',
+                       f'a late copy of the IKE_SA_INIT request (ID 0) was answered by a responder IKE_SA in state {sa.state.name} '
+                       f'(reply exchange type {bytes(out)[18]}, ID {int.from_bytes(bytes(out)[20:24], "big")})')
+            after = WD.sa_snapshot(sa)
+            if after != before:
+                s.fail('out-of-window-executed:IKE_SA_INIT', f'a late copy of the IKE_SA_INIT request changed the IKE_SA: '
+                                                              f'{ {k: (before.get(k), after.get(k)) for k in after if after.get(k) != before.get(k)} }')
 
 
 def body(case, stats):
@@ -308,7 +351,10 @@ def ops_strategy():
     old = st.builds(lambda k: ['old', k], st.integers(0, 80))
     drop = st.builds(lambda i: ['drop', i], st.integers(0, 3))
     tick = st.builds(lambda t: ['tick', t], st.sampled_from([0.5, 1.0, 2.5, 5.0, 9.0]))
-    return st.lists(st.one_of(trig, trig, deliver, deliver, deliver, dup, dup, old, old, drop, tick), min_size=3, max_size=40)
+    # an authentic request whose exchange type is not the one its payloads / the state call for: it is in the window, so it
+    # is answered (an error), and the answer belongs to the exchange of the request
+    rew = st.builds(lambda i, x: ['rewrite', i, 'exchange', x], st.integers(0, 3), st.sampled_from([35, 36, 37]))
+    return st.lists(st.one_of(trig, trig, deliver, deliver, deliver, dup, dup, old, old, drop, tick, rew), min_size=3, max_size=40)
 
 
 @st.composite
